@@ -39,8 +39,12 @@ META = {
             "layouts, creation sites of buildContext); SHA-256 modelled as the structured "
             "value hashed (collision-freeness); an output write always leaves a new (size, mtime, mode) "
             "(strictly increasing stamp); 'edit => new mtime, size or mode' as in the property's wording; "
-            "docker-backed rules, symlinked sources and file sets "
-            "listing output files are outside the theorems' scope; a WORKSPACE.caco3 edit is seen by a new Builder "
+            "docker-backed rules and file sets "
+            "listing output files are outside the theorems' scope; a source that is a symbolic link is its own lstat "
+            "(size and mtime of the link, target text), nothing is read through it - histories hold links to listed "
+            "and unlisted files, outside the tree, dangling and to directories, with their targets edited, the links "
+            "retargeted, touched, replaced by files and back, and the translator checks that digests and .fileset "
+            "entries come from the same stat call (os.Lstat); a WORKSPACE.caco3 edit is seen by a new Builder "
             "only (ReadWorkspace memoises by design; outside the property's operation list); sqlite KV, os.Lstat, "
             "JSON encoding modelled not verified; no axioms.",
     "technique": "Coq proof (invariant over histories, digest-determines-output induction over the loaded graph, "
@@ -120,7 +124,11 @@ def op_coq(op, listed):
     k = op["k"]
     if k == "src":
         st = op.get("stat")
-        return "HOp (OSetSrc %s %s)" % (coq_str(op["name"]), "(Some %s)" % stat_coq(st) if st else "None")
+        return "HOp (OSetSrc %s %s)" % (coq_str(op["name"]),
+                                        "(Some %s)" % stat_coq(st, op.get("link", "")) if st else "None")
+    if k == "outside":
+        # a file outside the source tree changed (the target of some links): no source's lstat changes
+        return "HNew"
     if k == "rules":
         return "HOp (OSetRules %s)" % rules_coq(listed_rules(op["rules"], listed))
     if k == "pkgs":
@@ -159,7 +167,8 @@ def effective(c):
 
 
 def case_coq(c):
-    src = "[" + "; ".join("(%s, %s)" % (coq_str(s["name"]), stat_coq(s["stat"])) for s in c["src"]) + "]"
+    src = "[" + "; ".join("(%s, %s)" % (coq_str(s["name"]), stat_coq(s["stat"], s.get("link", "")))
+                          for s in c["src"]) + "]"
     steps = []
     for op, listed, allr in effective(c):
         if op["k"] == "pkgs":
@@ -423,7 +432,8 @@ def brief(c, upto=None):
             "builder_note": "one = all Build calls of the history on one long-lived caco3.Builder per configuration "
                             "(renewed only at 'newbuilder'); fresh = a new Builder for every build",
             "pkgs": c["pkgs"], "rules": c["rules"],
-            "src": [{"name": s["name"], "stat": s["stat"]} for s in c["src"]], "ops": ops}
+            "src": [dict({"name": s["name"], "stat": s["stat"]}, **({"link": s["link"]} if s.get("link") else {}))
+                    for s in c["src"]], "ops": ops}
 
 
 def run(ck):
@@ -450,7 +460,8 @@ def run(ck):
     nbuilds = 0
     stale = 0
     for c in cases:
-        key = json.dumps([c.get("builder"), c.get("work"), c["rules"], [(s["name"], s["stat"]) for s in c["src"]],
+        key = json.dumps([c.get("builder"), c.get("work"), c["rules"],
+                          [(s["name"], s["stat"], s.get("link")) for s in c["src"]],
                           [{k: v for k, v in op.items() if k != "obs"} for op in c["ops"]]], sort_keys=True)
         builds = [op for op in c["ops"] if op["k"] == "build" and op.get("obs")]
         nbuilds += len(builds)
